@@ -944,7 +944,9 @@ func (m *Machine) indexOp(fr *frame, in *ssa.Index) Value {
 			return copyVal(xv[i])
 		case *Term:
 			it := m.idxTerm(i, in.Index.Type())
-			if !m.decideBool(m.tf.Cmp("bvult", it, m.tf.BV(uint64(len(xv)), 64)), "index in range") {
+			if termUB(it) < uint64(len(xv)) {
+				// statically in range
+			} else if !m.decideBool(m.tf.Cmp("bvult", it, m.tf.BV(uint64(len(xv)), 64)), "index in range") {
 				m.throwRuntime("index out of range")
 			}
 			if isScalarT(in.Type()) {
@@ -964,7 +966,9 @@ func (m *Machine) indexOp(fr *frame, in *ssa.Index) Value {
 			return strAt(x, int(i))
 		case *Term:
 			it := m.idxTerm(i, in.Index.Type())
-			if !m.decideBool(m.tf.Cmp("bvult", it, m.tf.BV(uint64(n), 64)), "string index in range") {
+			if termUB(it) < uint64(n) {
+				// statically in range
+			} else if !m.decideBool(m.tf.Cmp("bvult", it, m.tf.BV(uint64(n), 64)), "string index in range") {
 				m.throwRuntime("index out of range")
 			}
 			return m.symRead(strBytes(x), it, 8, false)
@@ -1110,6 +1114,11 @@ func (m *Machine) lookup(fr *frame, in *ssa.Lookup) Value {
 	x := fr.get(in.X)
 	k := fr.get(in.Index)
 	mp := x.(*Map)
+	if kt, sym := k.(*Term); sym {
+		if r, ok := m.lookupIte(mp, kt, in); ok { // model_maplookup.go
+			return r
+		}
+	}
 	i := m.mapFind(mp, k)
 	var v Value
 	if i >= 0 {
